@@ -103,7 +103,8 @@ def check(case) -> CaseResult:
     # ---- the buffer (float32, exactly what the implementation receives)
     seq = onp.array([-(n_dummy - i) for i in range(n_dummy)] + [case["s0"] + i for i in range(n_real)], dtype=onp.int32)
     ts_sent_real = onp.array(
-        [(case["s0"] + i) * period + case["phase_frac"] * period + case["jit"][i] * period for i in range(n_real)], dtype=onp.float32
+        # jittered senders get a base offset so that no send time is negative (episode time starts at 0)
+        [(case["s0"] + i) * period + case["phase_frac"] * period + case["jit"][i] * period + (0.0 if case["periodic"] else 0.35 * period) for i in range(n_real)], dtype=onp.float32
     )
     ts_sent = onp.concatenate([onp.zeros(n_dummy, dtype=onp.float32), ts_sent_real])
     if n_real >= 2 and not (onp.diff(ts_sent_real.astype(onp.float64)) > 0.2 * period).all():
